@@ -17,7 +17,7 @@ RULE = (
     "question first. Oracle (differential + invariant): the outcome of every operation (value repr or exception "
     "class) equals the outcome of the same operation asked first on a database freshly rebuilt from the accepted "
     "registrations; the full registry snapshot (all public getters, both conversion functions sampled) is identical "
-    "before and after every read-only or failing step. Plus an exhaustive sweep of the shipped table: every category x (first and last listed unit, first and last unit of its type that is not listed) through the object-level uses (GetValidUnits of Scalar / Array / FixedArray / FractionScalar - the returned list is then edited by the caller -, IsValid, CreateCopy, ObtainQuantity, CheckCategoryUnit, +), after each of which the valid and default units of every category of that quantity type and the type's units read as before. Registrations include a unit whose symbol differs only by case from one that was looked up with FindUnitCase. Conversions of an ndarray-backed Array are questions too: asked twice they give the same answer and the ndarray holds the same numbers afterwards. Non-trivial = a query preceded by a failing lookup of the same "
+    "before and after every read-only or failing step. Plus an exhaustive sweep of the shipped table: every category x (first and last listed unit, first and last unit of its type that is not listed) through the object-level uses (GetValidUnits of Scalar / Array / FixedArray / FractionScalar - the returned list is then edited by the caller -, IsValid, CreateCopy, ObtainQuantity, CheckCategoryUnit, +), after each of which the valid and default units of every category of that quantity type and the type's units read as before. Registrations include a unit whose symbol differs only by case from one that was looked up with FindUnitCase. Conversions of an ndarray-backed Array are questions too: asked twice they give the same answer and the ndarray holds the same numbers afterwards. Quantities are asked for with and without a caption; a category is registered for the first time after lookups in it failed. Non-trivial = a query preceded by a failing lookup of the same "
     "key, by an object-level GetValidUnits, or by a later registration; key = (database kind, query kind, preceding event kind, category/unit asked)."
 )
 ASSUMPTIONS = ["quantities and value objects obtained before a registration keep what they captured (documented design); only fresh queries are compared"]
@@ -98,6 +98,9 @@ def query(db, q):
         elif k == "ObtainQuantity":
             o = ObtainQuantity(q[2], q[1])
             r = (repr(o), o.GetQuantityType(), o.GetUnit())
+        elif k == "ObtainQuantityCaption":
+            o = ObtainQuantity(q[2], q[1], q[3])
+            r = (repr(o), o.GetUnknownCaption(), o.GetUnitCaption(), repr(Scalar(o, 1.0)))
         elif k == "ObtainQuantityUnitOnly":
             o = ObtainQuantity(q[1])
             r = (repr(o), o.GetQuantityType())
@@ -346,6 +349,7 @@ def seq_strategy(base_kind, max_len):
             st.tuples(st.sampled_from(["Convert", "ConvertList"]), st.one_of(t, c), u, u),
             st.tuples(st.sampled_from(["GetValue", "Add", "Multiply", "CreateCopy", "ArrayGetValues"]), c, u, u),
             st.tuples(st.sampled_from(["IsValid", "CheckValueForCategory"]), c, u, x),
+            st.tuples(st.just("ObtainQuantityCaption"), c, u, st.sampled_from(["", "Measured Depth", "cap"])),
             st.tuples(st.sampled_from(["AddPow", "MulPow", "DivPow", "MulRecipPow", "ArrayMulPow"]), c, u, u, st.sampled_from([2, 3, 2])),
             st.tuples(st.just("AddMixed"), c, u, c, u),
             st.sampled_from([("AddMixed", "L", "m", "depth", "km"), ("AddMixed", "depth", "cm", "L", "m")] if base_kind == "small" else [("AddMixed", "length", "m", "depth", "km"), ("AddMixed", "liquid volume", "m3", "gas volume", "ft3"), ("AddMixed", "depth", "cm", "length", "m")]),
@@ -372,12 +376,14 @@ def seq_strategy(base_kind, max_len):
         op = st.one_of(queries.map(lambda q: ["query", q]), queries.map(lambda q: ["query", q]), regs.map(lambda r: ["reg", r]))
         if base_kind == "small" and draw(st.integers(0, 3)) == 0:
             # scenario: the same question before and after the registration that should change its answer
-            c0 = draw(st.sampled_from(["L", "depth"]))
+            c0 = draw(st.sampled_from(["L", "depth", "x"]))  # ('x' is not registered by the prefix: lookups fail first)
             u0 = draw(st.sampled_from(["cm", "km", "lbmol", "mm"]))
             kinds2 = ["CheckCategoryUnit", "ObtainQuantity", "Scalar", "ScalarGetValidUnits", "ArrayGetValidUnits", "FindUnitCase"]
             ask = [["query", [draw(st.sampled_from(kinds2)), c0, u0]] for _ in range(draw(st.integers(1, 2)))]
             ask += [["query", [draw(st.sampled_from(["Convert", "GetValue", "CreateCopy"])), c0, "m", u0]]] * draw(st.integers(0, 1))
             ask += [["query", ["FindUnitCase", c0, draw(st.sampled_from(["km", u0]))]]] * draw(st.integers(0, 1))
+            ask += [["query", ["ObtainQuantityCaption", c0, "m", draw(st.sampled_from(["", "cap"]))]], ["query", ["ObtainQuantityCaption", c0, "m", "cap"]]] * draw(st.integers(0, 1))
+            ask += [["query", ["CheckCategoryUnit", c0, "m"]], ["query", ["CheckCategoryUnit", c0, "km"]]]
             # the forms that leave the category out resolve it through the unit (separate cache keys)
             ask += [["query", [draw(st.sampled_from(["ScalarUnitOnly", "ObtainQuantityUnitOnly"])), draw(st.sampled_from(["m", u0]))]]]
             change = draw(
@@ -387,6 +393,8 @@ def seq_strategy(base_kind, max_len):
                         ["cat", c0, {"quantity_type": "T", "override": True}],
                         ["cat", c0, {"quantity_type": "L", "override": True, "valid_units": ["m"], "default_unit": "m", "min_value": 0.0, "max_value": 2.0}],
                         ["cat", c0, {"quantity_type": "L", "override": True, "default_unit": "km"}],
+                        # the category is registered (for 'x': for the first time) after it was asked about
+                        ["cat", c0, {"quantity_type": "L"} if c0 == "x" else {"quantity_type": "L", "override": True}],
                         # a second unit whose symbol differs only by case from one that was looked up case-insensitively
                         ["unit", "L", "case twin", "Km", "%f*7.0", "%f/7.0", None],
                         ["unit", "L", "case twin", u0.capitalize(), "%f*7.0", "%f/7.0", None],
